@@ -132,7 +132,7 @@ bool verify_core(const KindInfo& K, const Site& s, Rounding_Dir dir, const char*
   if (ovf_code || (st.inf() && ex.v.fin())) {
     if (!L.bounded) NK_FAIL("ovf", "overflow-in-unbounded-type");
     bool below = xcmp(ex.v, L.lo) < 0, above = xcmp(ex.v, L.hi) > 0;
-    if (K.is_flt && ex.has_prod && ex.prod.fin()) { if (xcmp(ex.prod, L.lo) < 0) below = true; if (xcmp(ex.prod, L.hi) > 0) above = true; }   // unfused float multiply-add: an overflowing product saturates
+    if (K.is_flt && ex.has_prod && ex.prod.fin() && (xcmp(ex.prod, L.lo) < 0 || xcmp(ex.prod, L.hi) > 0)) below = above = true;   // unfused float multiply-add/sub: an overflowing product saturates (sound, the relation was checked above)
     bool claims_neg = (rel == VR_LT && ovf_code) || st.k == XQ::MINF;   // V_LT_INF: exact < min ; stored -inf
     bool claims_pos = (rel == VR_GT && ovf_code) || st.k == XQ::PINF;
     if (ovf_code && rel == VR_LT && !(st.fin() && st.q == L.lo)) NK_FAIL("ovf", "lt-inf-but-stored-not-min");
@@ -154,15 +154,26 @@ bool verify_core(const KindInfo& K, const Site& s, Rounding_Dir dir, const char*
 // ---------------------------------------------------------------- inputs that were seen to trigger undefined behaviour inside PPL
 // They are first executed in a forked child so that the engine survives, keys the sanitizer report precisely
 // (C11.ub.<op>.<type>:<class>) and goes on with the enumeration.  Predicates are on the decoded operands.
-static bool risky_bin(const KindInfo&, const char*, const XQ&, const XQ&) { return false; }
+static bool risky_bin(const KindInfo& K, const char* op, const XQ& a, const XQ& b) {
+  // lcm_gcd_exact takes |x|, |y| under the *source* policies; for raw native operands that is the transparent policy,
+  // so abs(min) is computed as `-from` without an overflow test (checked_inlines.hh:430,434 -> checked_int_inlines.hh:1007)
+  if (K.is_int && K.is_signed && K.bits >= 32 && strcmp(K.pol, "raw") == 0 && strcmp(op, "lcm") == 0 && a.fin() && b.fin() && ::sgn(a.q) != 0 && ::sgn(b.q) != 0 && (a.q == K.lim.lo || b.q == K.lim.lo)) return true;
+  return false;
+}
 static bool risky_un(const KindInfo& K, const char* op, const XQ& a) {
   // isqrt_rem on a signed 32/64-bit type: `q = s + t` overflows for radicands >= 2^(bits-2) (checked_int_inlines.hh:1543)
   if (K.is_int && K.is_signed && K.bits >= 32 && strcmp(op, "sqrt") == 0 && a.fin() && a.q * 4 > K.lim.hi) return true;
+  // sqrt_mpq of a perfect square in (0,1) with ROUND_NOT_NEEDED: inverse(ROUND_NOT_NEEDED) is PPL_UNREACHABLE -> abort() (Rounding_Dir_inlines.hh:134)
+  if (K.is_mpq && strcmp(op, "sqrt") == 0 && a.fin() && ::sgn(a.q) > 0 && a.q <= 1 && ex_sqrt(a).v.root == false) return true;
   return false;
 }
-static bool risky_e2(const KindInfo& K, const char* op, const XQ&, unsigned e) {
+static bool risky_e2(const KindInfo& K, const char* op, const XQ& a, unsigned e) {
   // smod_2exp_{signed,unsigned}_int: `Type(1) << (exp - 1)` with exp == 0 (checked_int_inlines.hh:1480,1498)
   if (K.is_int && e == 0 && strcmp(op, "smod_2exp") == 0) return true;
+  // smod_2exp_mpq with exp == 0 halves a denominator of 1 to 0 -> GMP division by zero (SIGFPE) (checked_mpq_inlines.hh:425)
+  if (K.is_mpq && e == 0 && strcmp(op, "smod_2exp") == 0 && a.fin() && a.q.get_den() == 1) return true;
+  // umod_2exp_signed_int: `(Type(1) << exp) - 1` with exp == bits-1 overflows a signed 32/64-bit Type (checked_int_inlines.hh:1528)
+  if (K.is_int && K.is_signed && K.bits >= 32 && (int) e == K.bits - 1 && strcmp(op, "umod_2exp") == 0) return true;
   return false;
 }
 
@@ -172,6 +183,14 @@ static std::set<std::string>& crashed_classes() { static std::set<std::string> s
 static bool known_crash(const Site& s, const char* cls) {
   if (crashed_classes().count(std::string(s.op) + "|" + s.type + "|" + s.pol + "|" + cls)) { hx::count("skipped.known_ub_class"); return true; }
   return false;
+}
+// A class whose first inputs all survived the child is not probed any further (a fork of a sanitized process is
+// expensive); should a later input of the class crash after all, the driver's crash path reports it.
+static std::map<std::string, int>& survived_classes() { static std::map<std::string, int> m; return m; }
+static bool probe(const Site& s, const char* cls, const std::function<void()>& f, std::string& why) {
+  int& n = survived_classes()[std::string(s.op) + "|" + s.type + "|" + s.pol + "|" + cls];
+  if (n >= 3) return true;
+  bool ok = survives(f, why); if (ok) ++n; return ok;
 }
 static bool probe_report(const Site& s, const char* cls, const std::string& operands, const std::string& why) {
   crashed_classes().insert(std::string(s.op) + "|" + s.type + "|" + s.pol + "|" + cls);
@@ -199,12 +218,12 @@ void run_binary_core(const KindInfo& K, const char* op, BinRun run, Ex (*exact)(
         cl = std::string(::sgn(ay.q) < 0 ? "negative-divisor-" : "positive-divisor-") + (::sgn(ex_rem(ax, ay).v.q) == 0 ? "exact" : "inexact");
       const char* cls = intern(cl);
       Desc desc = desc2(ax, ay);
+      int nd = NDIRS + ((try_not_needed && ex.u == U_NONE && K.representable(ex.v)) ? 1 : 0);
       if (risky_bin(K, op, ax, ay)) {
         if (known_crash(s, cls)) continue;
         std::string why;
-        if (!survives([&]() { XQ st; for (int d = 0; d < NDIRS; ++d) run(xs, i, ys, j, DIRS[d].d, st); }, why)) { probe_report(s, cls, desc(), why); continue; }
+        if (!probe(s, cls, [&]() { XQ st; for (int d = 0; d < nd; ++d) run(xs, i, ys, j, DIRS[d].d, st); }, why)) { probe_report(s, cls, desc(), why); continue; }
       }
-      int nd = NDIRS + ((try_not_needed && ex.u == U_NONE && K.representable(ex.v)) ? 1 : 0);
       for (int d = 0; d < nd; ++d) {
         if (g_verbose()) fprintf(stderr, "op: %s<%s/%s>(%s, ROUND_%s)\n", s.op, s.type.c_str(), s.pol, desc().c_str(), DIRS[d].name);
         XQ st; Result r = run(xs, i, ys, j, DIRS[d].d, st);
@@ -227,16 +246,16 @@ void run_unary_core(const KindInfo& K, const char* op, UnRun run, Ex (*exact)(co
     std::string cl = res_class(K, ex, ax.inf());
     if (is_sqrt && ex.u == U_NONE && ax.fin()) {
       if (K.is_int && ax.q * 4 > K.lim.hi + 1) cl = "radicand-top-quarter-" + cl;
-      else if (K.is_mpq && ax.q < 1 && ::sgn(ax.q) > 0) cl = "radicand-below-one-" + cl;
+      else if (K.is_mpq && ax.q <= 1 && ::sgn(ax.q) > 0) cl = "radicand-at-most-one-" + cl;
     }
     const char* cls = intern(cl);
     Desc desc = desc1(ax);
+    int nd = NDIRS + ((try_not_needed && ex.u == U_NONE && K.representable(ex.v)) ? 1 : 0);
     if (risky_un(K, op, ax)) {
       if (known_crash(s, cls)) continue;
       std::string why;
-      if (!survives([&]() { XQ st; for (int d = 0; d < NDIRS; ++d) run(xs, i, DIRS[d].d, st); }, why)) { probe_report(s, cls, desc(), why); continue; }
+      if (!probe(s, cls, [&]() { XQ st; for (int d = 0; d < nd; ++d) run(xs, i, DIRS[d].d, st); }, why)) { probe_report(s, cls, desc(), why); continue; }
     }
-    int nd = NDIRS + ((try_not_needed && ex.u == U_NONE && K.representable(ex.v)) ? 1 : 0);
     for (int d = 0; d < nd; ++d) {
       if (g_verbose()) fprintf(stderr, "op: %s<%s/%s>(%s, ROUND_%s)\n", s.op, s.type.c_str(), s.pol, desc().c_str(), DIRS[d].name);
       XQ st; Result r = run(xs, i, DIRS[d].d, st);
@@ -271,7 +290,7 @@ void run_2exp_core(const KindInfo& K, const char* op, E2Run run, Ex (*exact)(con
       if (risky_e2(K, op, ax, e)) {
         if (known_crash(s, cls)) continue;
         std::string why;
-        if (!survives([&]() { XQ st; for (int d = 0; d < NDIRS; ++d) run(xs, i, e, DIRS[d].d, st); }, why)) { probe_report(s, cls, desc(), why); continue; }
+        if (!probe(s, cls, [&]() { XQ st; for (int d = 0; d < NDIRS; ++d) run(xs, i, e, DIRS[d].d, st); }, why)) { probe_report(s, cls, desc(), why); continue; }
       }
       for (int d = 0; d < NDIRS; ++d) {
         if (g_verbose()) fprintf(stderr, "op: %s<%s/%s>(%s, ROUND_%s)\n", s.op, s.type.c_str(), s.pol, desc().c_str(), DIRS[d].name);
@@ -320,6 +339,7 @@ void run_convert_core(const KindInfo& To, const KindInfo& From, BinRun assign, B
   size_t nx = From.size(xs); unsigned long done = 0;
   for (size_t i = 0; i < nx; ++i) {
     const XQ ax = From.dec_at(xs, i);
+    if (ax.nan() && To.is_flt && From.is_flt && !To.c_fpu_nan) { hx::count("skipped.outside_policy_contract"); continue; }   // float -> float copy of a NaN under a policy that does not look for NaN results
     Ex ex = ex_id(ax);
     std::string cl = res_class(To, ex, false);
     if (ex.u == U_NONE && ax.fin() && cl == "inexact" && To.is_int) cl = ::sgn(ax.q) < 0 ? "negative-fractional" : "positive-fractional";
@@ -366,6 +386,15 @@ void run_compare_core(const KindInfo& A, const KindInfo& B, CmpRun run, SgnRun s
     for (size_t j = 0; j < ny; ++j) {
       const XQ& ay = dy[j]; int c = xcmp(ax, ay);
       if (g_verbose()) fprintf(stderr, "op: compare<%s/%s>(%s, %s)\n", ty.c_str(), pol.c_str(), show(ax).c_str(), show(ay).c_str());
+      // GMP operand holding a special value compared across policies: the swapped policies of gt_ext/ge_ext let the
+      // special encoding (zero denominator, fake size field) reach GMP itself -> SEGV; run in a child first
+      // likewise a GMP number compared with a floating point NaN / infinity (GMP "invalid operation", SIGFPE)
+      if ((A.is_mpz || A.is_mpq || B.is_mpz || B.is_mpq) && (!ax.fin() || !ay.fin()) && (strcmp(A.pol, B.pol) != 0 || A.is_flt || B.is_flt)) {
+        const char* pcls = intern(mixed + (c == 2 ? "nan-operand" : "inf-operand")); Site ps = { "compare", ty, intern(pol) };
+        if (known_crash(ps, pcls)) continue;
+        std::string why;
+        if (!probe(ps, pcls, [&]() { run(xs, i, ys, j, c != 2); }, why)) { probe_report(ps, pcls, show(ax) + ", " + show(ay), why); continue; }
+      }
       CmpOut o = run(xs, i, ys, j, c != 2);
       bool want[6] = { c == 0, c != 0, c == -1, c == -1 || c == 0, c == 1, c == 1 || c == 0 };
       const char* cls = intern(mixed + (c == 2 ? "nan-operand" : (ax.inf() || ay.inf()) ? "inf-operand" : "finite"));
